@@ -117,80 +117,95 @@ def dictValues {α : Type} (key : α → Str) (l : List α) : List α :=
 section
 variable {F : Type} (fo : FloatOps F) (tb : Table)
 
-def intField (e : Xml) (t : Tag) : Except FErr Int :=
-  match e.findtext .device t with
+/-- `int(findtext(..., 0))` -/
+def optInt (o : Option Str) : Except FErr Int :=
+  match o with
   | none => .ok 0
   | some s => match pyInt? s with
       | some i => .ok i
       | none => .error (.raw .valueError)
 
-def parseIcon (base : Str) (e : Xml) : Except FErr IconM :=
-  let url := absoluteUrl base ((e.findtext .device .url).getD [])
-  let mt := (e.findtext .device .mimetype).getD []
-  match intField e .width with
+/-- `DeviceIcon(...)` from the five optional texts (url, mimetype, width, height, depth evaluated in this order) -/
+def iconOf (base : Str) (mimetype width height depth url : Option Str) : Except FErr IconM :=
+  match optInt width with
   | .error x => .error x
-  | .ok w => match intField e .height with
+  | .ok w => match optInt height with
     | .error x => .error x
-    | .ok h => match intField e .depth with
+    | .ok h => match optInt depth with
       | .error x => .error x
-      | .ok d => .ok { mimetype := mt, width := w, height := h, depth := d, url := url }
+      | .ok d => .ok { mimetype := mimetype.getD [], width := w, height := h, depth := d
+                       url := absoluteUrl base (url.getD []) }
+
+def parseIcon (base : Str) (e : Xml) : Except FErr IconM :=
+  iconOf base (e.findtext .device .mimetype) (e.findtext .device .width) (e.findtext .device .height)
+    (e.findtext .device .depth) (e.findtext .device .url)
 
 def parseInfo (e : Xml) : List (Option Str) :=
   infoTags.map fun t => match e.findtext .device t with
     | some s => some s
     | none => infoDefault t
 
-/-- `_parse_state_variable_el` + `_state_variable_create_schema` + the lazily computed attributes -/
-def createVar (nonStrict : Bool) (e : Xml) : Except FErr (VarM F) :=
+/-- `_parse_state_variable_el` + `_state_variable_create_schema` + the lazily computed attributes,
+    from the pieces read off the element: the `sendEvents` attribute, the `sendEventsAttribute`
+    text, data type, default, name, (minimum, maximum) of the range, allowed value texts -/
+def varOf (nonStrict : Bool) (seAttr seElem dataType default name : Option Str)
+    (range : Option (Option Str × Option Str)) (allowed : Option (List Str)) : Except FErr (VarM F) :=
   let sendEvents : Bool :=
-    match e.sendEvents with
+    match seAttr with
     | some a => a == ['y', 'e', 's']
-    | none => match e.find .service .sendEventsAttribute with
-        | some c => c.text.getD [] == ['y', 'e', 's']
+    | none => match seElem with
+        | some e => e == ['y', 'e', 's']
         | none => false
-  match e.findtext .service .dataType with
+  match dataType with
   | none => .error .upnpError
   | some dt => match tb.row? dt with
     | none => .error .upnpError
     | some row =>
-      let default := e.findtext .service .defaultValue
-      let range : Option (Option Str × Option Str) :=
-        (e.find .service .allowedValueRange).map fun r => (r.findtext .service .minimum, r.findtext .service .maximum)
-      let allowed : Option (List Str) :=
-        (e.find .service .allowedValueList).map fun l =>
-          (l.findall .service .allowedValue).filterMap (·.text)
-      let name := stripWs ((e.findtext .service .name).getD [])
       match mkSchema fo tb row (!nonStrict) { range := range, allowed := allowed, default := default } with
       | .error x => .error (.raw x)
       | .ok _ =>
         let inC := coercePython fo tb row
-        .ok { name := name, dataType := dt, sendEvents := sendEvents
+        .ok { name := stripWs (name.getD []), dataType := dt, sendEvents := sendEvents
               min := R.ofExcept (optM inC (range.bind (·.1)))
               max := R.ofExcept (optM inC (range.bind (·.2)))
               allowed := R.ofExcept (mapM' inC (allowed.getD []))
               default := R.ofExcept (optM inC default) }
+
+def createVar (nonStrict : Bool) (e : Xml) : Except FErr (VarM F) :=
+  varOf fo tb nonStrict e.sendEvents
+    ((e.find .service .sendEventsAttribute).map fun c => c.text.getD [])
+    (e.findtext .service .dataType) (e.findtext .service .defaultValue) (e.findtext .service .name)
+    ((e.find .service .allowedValueRange).map fun r => (r.findtext .service .minimum, r.findtext .service .maximum))
+    ((e.find .service .allowedValueList).map fun l => (l.findall .service .allowedValue).filterMap (·.text))
 
 def createVars (nonStrict : Bool) (scpd : Xml) : Except FErr (List (VarM F)) :=
   match scpd.find .service .serviceStateTable with
   | none => if nonStrict then .ok [] else .error .xmlContent
   | some t => mapE (createVar fo tb nonStrict) (t.findall .service .stateVariable)
 
+/-- an argument needs a name, a direction and a related state variable; otherwise it is skipped -/
+def completeArg (n d r : Option Str) : Option (Str × Str × Str) :=
+  match n, d, r with
+  | some n, some d, some r => some (n, d, r)
+  | _, _, _ => none
+
 /-- `_parse_action_el`: arguments lacking a name, a direction or a related variable are skipped -/
 def parseArgs (a : Xml) : List (Str × Str × Str) :=
   (a.findall2 .service .argumentList .argument).filterMap fun g =>
-    match g.findtext .service .name, g.findtext .service .direction, g.findtext .service .relatedStateVariable with
-    | some n, some d, some r => some (n, d, r)
-    | _, _, _ => none
+    completeArg (g.findtext .service .name) (g.findtext .service .direction) (g.findtext .service .relatedStateVariable)
 
-/-- `_create_action`: each argument is bound to the state variable with the *named* related variable -/
-def createAction (vars : List (VarM F)) (a : Xml) : Except FErr ActM :=
-  let svs : PyDict Str (VarM F) := PyDict.ofList (vars.map fun v => (v.name, v))
-  let name := (a.findtext .service .name).getD ['n', 'a', 'm', 'e', 'l', 'e', 's', 's']
-  match mapE (fun (g : Str × Str × Str) => match PyDict.get? svs g.2.2 with
+/-- `UpnpAction(...)`: each complete argument is bound to the state variable `lookup` finds for
+    the NAME given as its related state variable; no such variable: KeyError -/
+def actionOf (lookup : Str → Option (VarM F)) (name : Option Str) (args : List (Str × Str × Str)) : Except FErr ActM :=
+  match mapE (fun (g : Str × Str × Str) => match lookup g.2.2 with
       | some v => Except.ok ({ name := g.1, direction := g.2.1, related := v.name, relatedType := v.dataType } : ArgM)
-      | none => Except.error FErr.keyError) (parseArgs a) with
-  | .ok args => .ok { name := name, args := args }
+      | none => Except.error FErr.keyError) args with
+  | .ok as => .ok { name := name.getD ['n', 'a', 'm', 'e', 'l', 'e', 's', 's'], args := as }
   | .error e => .error e
+
+/-- `_create_action` (`svs = {sv.name: sv for sv in state_variables}`) -/
+def createAction (vars : List (VarM F)) (a : Xml) : Except FErr ActM :=
+  actionOf (PyDict.get? (PyDict.ofList (vars.map fun v => (v.name, v)))) (a.findtext .service .name) (parseArgs a)
 
 def createActions (nonStrict : Bool) (vars : List (VarM F)) (scpd : Xml) : Except FErr (List ActM) :=
   match scpd.find .service .actionList with
@@ -206,29 +221,39 @@ def joinOpt (base : Str) (o : Option Str) : Option Str :=
   | none => some base
   | some s => urljoin base s
 
+/-- state variables and actions of a fetched SCPD (strict: a foreign root / missing state table is
+    refused; non-strict: unparsable text counts as an empty `scpd`) -/
+def serviceBody (nonStrict : Bool) (fetched : Fetch) : Except FErr (List (VarM F) × List ActM) :=
+  match (match fetched with
+      | .status _ => Except.error FErr.response
+      | .unparsable => if nonStrict then Except.ok (Xml.node .service .scpd none none []) else .error .xmlParse
+      | .doc x => .ok x) with
+  | .error e => .error e
+  | .ok scpd =>
+    if !nonStrict && !(Xml.isNamed .service .scpd scpd) then .error .xmlContent
+    else match createVars fo tb nonStrict scpd with
+      | .error e => .error e
+      | .ok vars => match createActions nonStrict vars scpd with
+        | .error e => .error e
+        | .ok acts => .ok (dictValues (·.name) vars, dictValues (·.name) acts)
+
+/-- `UpnpService(...)`: ids as given, URLs joined to the description URL -/
+def svcOf (base : Str) (serviceId serviceType controlURL eventSubURL scpdURL : Option Str)
+    (body : Except FErr (List (VarM F) × List ActM)) : Except FErr (SvcM F) :=
+  match body with
+  | .error e => .error e
+  | .ok (vars, acts) =>
+    .ok { serviceId := serviceId.getD [], serviceType := serviceType.getD []
+          controlUrl := urljoin base (controlURL.getD []), eventSubUrl := urljoin base (eventSubURL.getD [])
+          scpdUrl := urljoin base (scpdURL.getD []), vars := vars, actions := acts }
+
 /-- `_async_create_service` -/
 def createService (fetch : Str → Fetch) (nonStrict : Bool) (base : Str) (sd : Xml) : Except FErr (SvcM F) :=
   match joinOpt base (sd.findtext .device .SCPDURL) with
   | none => .error .unmodelled
   | some u =>
-    let got : Except FErr Xml := match fetch u with
-      | .status _ => .error .response
-      | .unparsable => if nonStrict then .ok (.node .service .scpd none none []) else .error .xmlParse
-      | .doc x => .ok x
-    match got with
-    | .error e => .error e
-    | .ok scpd =>
-      if !nonStrict && !(Xml.isNamed .service .scpd scpd) then .error .xmlContent
-      else match createVars fo tb nonStrict scpd with
-        | .error e => .error e
-        | .ok vars => match createActions nonStrict vars scpd with
-          | .error e => .error e
-          | .ok acts =>
-            let txt (t : Tag) : Str := (sd.findtext .device t).getD []
-            .ok { serviceId := txt .serviceId, serviceType := txt .serviceType
-                  controlUrl := urljoin base (txt .controlURL), eventSubUrl := urljoin base (txt .eventSubURL)
-                  scpdUrl := urljoin base (txt .SCPDURL)
-                  vars := dictValues (·.name) vars, actions := dictValues (·.name) acts }
+    svcOf base (sd.findtext .device .serviceId) (sd.findtext .device .serviceType) (sd.findtext .device .controlURL)
+      (sd.findtext .device .eventSubURL) (sd.findtext .device .SCPDURL) (serviceBody fo tb nonStrict (fetch u))
 
 def DevM.deviceType : DevM F → Str
   | .mk info _ _ _ _ => (info.head?.getD none).getD []
